@@ -1011,6 +1011,179 @@ def run_drift(case):
 
 
 # =================================================================================================
+# same pixel grid, every ordered pair of tile layouts
+# =================================================================================================
+# "tile k has the same shape on both sides" does not mean "covers the same pixels" once chunks are irregular.
+# Menu entries: int = regular tile size (odc.geo.roi.Tiles when both axes are ints), tuple = explicit chunks.
+MENU_Y = (10, (5, 10, 15), (15, 10, 5), (10, 5, 15), (12, 8, 10), 30, 6, (1, 28, 1))  # 30-px axis
+MENU_X = (8, (4, 8, 12), (12, 8, 4), 24, 6, (2, 20, 2))  # 24-px axis
+MENU_SHAPE = (30, 24)
+# relation of the source pixel grid to the destination's: (scale of a source pixel in dst pixels, shift in dst px)
+MENU_REL = {"identical": (1.0, 0.0, 0.0), "shift": (1.0, 3.0, -2.0), "scale2": (2.0, 0.0, 0.0),
+            "scale-half": (0.5, 0.0, 0.0), "scale2-shift": (2.0, -7.0, 4.0)}
+
+
+def _chunks(item, n):
+    if isinstance(item, tuple):
+        assert sum(item) == n
+        return item
+    return tuple(min(item, n - k) for k in range(0, n, item))
+
+
+def menu_tiling(ly, lx):
+    """Argument for GeoboxTiles + (row offsets, column offsets) + class label."""
+    ny, nx = MENU_SHAPE
+    cy, cx = _chunks(ly, ny), _chunks(lx, nx)
+    how = (ly, lx) if isinstance(ly, int) and isinstance(lx, int) else (cy, cx)
+
+    def irregular(c):
+        return not (len(set(c[:-1])) <= 1 and (len(c) == 1 or c[-1] <= c[0]))
+
+    cls = "irregular" if irregular(cy) or irregular(cx) else "regular"
+    return how, offsets(ny, cy), offsets(nx, cx), cls
+
+
+def gen_layouts():
+    tier = _TIER[0]
+    rels = ("identical", "shift", "scale2", "scale-half") if tier == "quick" else tuple(MENU_REL)
+    lay = list(itertools.product(range(len(MENU_Y)), range(len(MENU_X))))
+    for rel in rels:
+        for (dy, dx), (sy, sx) in itertools.product(lay, lay):
+            yield (rel, dy, dx, sy, sx)
+
+
+def run_layouts(case):
+    rel, dy, dx, sy, sx = case
+    ny, nx = MENU_SHAPE
+    dhow, dyo, dxo, dcls = menu_tiling(MENU_Y[dy], MENU_X[dx])
+    show, syo, sxo, scls = menu_tiling(MENU_Y[sy], MENU_X[sx])
+    sc, ox, oy = MENU_REL[rel]
+    epsg, Ad, _ = BASES["utm"]
+    As = aff_mul(Ad, aff_mul(aff_T(ox, oy), aff_S(sc, sc)))
+    crs = f"EPSG:{epsg}"
+    dst = GeoboxTiles(GeoBox(MENU_SHAPE, Affine(*Ad), crs), dhow)
+    src = GeoboxTiles(GeoBox(MENU_SHAPE, Affine(*As), crs), show)
+    eq = "equal" if (len(dyo), len(dxo)) == (len(syo), len(sxo)) else "unequal"
+    cls = f"{rel}:{dcls}-vs-{scls}:{eq}-tile-count"
+    what = (f"{rel}: dst chunks {_chunks(MENU_Y[dy], ny)} x {_chunks(MENU_X[dx], nx)} / src chunks "
+            f"{_chunks(MENU_Y[sy], ny)} x {_chunks(MENU_X[sx], nx)} on {ny}x{nx} px, src pixel = {sc} dst px, shift ({ox},{oy})")
+    r = R()
+    deps = dst.grid_intersect(src)
+    dt = {(i, j) for i in range(len(dyo) - 1) for j in range(len(dxo) - 1)}
+    st = {(i, j) for i in range(len(syo) - 1) for j in range(len(sxo) - 1)}
+    norm = check_deps_structure(r, deps, dt, st, "linear:layouts", what)
+    nreq = nedges = 0
+    if norm is not None:
+        # exact arithmetic: integer pixel rectangles, scale 1/2, 1 or 2, integer shifts
+        sxs = [(ox + sc * sxo[j], ox + sc * sxo[j + 1]) for j in range(len(sxo) - 1)]
+        sys_ = [(oy + sc * syo[i], oy + sc * syo[i + 1]) for i in range(len(syo) - 1)]
+        for (iy, ix) in sorted(dt):
+            listed = norm.get((iy, ix), set())
+            for jy, (ya, yb) in enumerate(sys_):
+                hy = min(dyo[iy + 1], yb) - max(dyo[iy], ya)
+                if hy <= 0:
+                    continue
+                for jx, (xa, xb) in enumerate(sxs):
+                    wx = min(dxo[ix + 1], xb) - max(dxo[ix], xa)
+                    if wx > 0 and wx * hy > 0.5:
+                        nreq += 1
+                        if (jy, jx) not in listed:
+                            stage = "dst-tile-absent" if (iy, ix) not in norm else "src-tile-unlisted"
+                            r.fail(f"grid_intersect:missing-edge:linear:layouts:{cls}:{stage}",
+                                   f"{what}: dst tile {(iy, ix)} overlaps src tile {(jy, jx)} by {wx * hy} dst pixels, "
+                                   f"listed {sorted(listed)}")
+        nedges = sum(len(v) for v in norm.values())
+    r.outcome = f"layouts:{cls}:edges={'=' if nedges == nreq else '+'}"
+    r.counts = {"edges_required": nreq, "edges_listed": nedges}
+    return r
+
+
+# =================================================================================================
+# history: equal rasters tiled two different ways, used one after the other in one process
+# =================================================================================================
+# Anything remembered per raster (footprints, ranges, ...) must not leak from one tiling to the other.  Every
+# case uses a raster of its own (origin shifted by the case number), so that whatever is remembered about it
+# was put there by the first tiling of this very case; first tiling, then second, then the first again.
+HIST_LAYOUTS = ((0, 0), (1, 1), (2, 2), (6, 4))  # indices into MENU_Y x MENU_X: 10x8, two irregular, 6x6
+HIST_OPS = ("geom-same-crs", "geom-other-crs", "grid-general")
+HIST_XI = (-2.0, 5.0, 11.0, 26.0)
+HIST_YI = (-2.0, 7.0, 16.0, 32.0)
+
+
+def gen_history():
+    k = 0
+    for base, (la, lb), op, inst in itertools.product(
+        ("utm", "rot30"), itertools.permutations(range(len(HIST_LAYOUTS)), 2), HIST_OPS, ("same-object", "equal-objects")
+    ):
+        k += 1
+        yield (k, base, la, lb, op, inst)
+
+
+def run_history(case):
+    k, base, la, lb, op, inst = case
+    epsg, A0, bcls = BASES[base]
+    Ad = aff_mul(aff_T(1000.0 * k, -500.0 * k), A0)  # a raster no other case uses
+    crs = f"EPSG:{epsg}"
+    ny, nx = MENU_SHAPE
+    r = R()
+    tilings = []
+    g0 = GeoBox(MENU_SHAPE, Affine(*Ad), crs)
+    for li in (la, lb):
+        how, yo, xo, _ = menu_tiling(MENU_Y[HIST_LAYOUTS[li][0]], MENU_X[HIST_LAYOUTS[li][1]])
+        gbox = g0 if inst == "same-object" else GeoBox(MENU_SHAPE, Affine(*Ad), crs)
+        rects = {(i, j): (xo[j], yo[i], xo[j + 1], yo[i + 1]) for i in range(len(yo) - 1) for j in range(len(xo) - 1)}
+        tilings.append((GeoboxTiles(gbox, how), rects, how))
+    passes = (("first-tiling", tilings[0]), ("second-tiling", tilings[1]), ("first-tiling-again", tilings[0]))
+    nreq_all = 0
+    if op.startswith("geom"):
+        qepsg = epsg if op == "geom-same-crs" else 4326
+        tol1 = TOL_PX * aff_pixlen(Ad)
+        queries = []
+        for kind in ("box", "tri1"):
+            for (xa, xb), (ya, yb) in itertools.product(intervals(HIST_XI), intervals(HIST_YI)):
+                W = [aff_apply(Ad, x, y) for x, y in query_pts(kind, xa, xb, ya, yb)]
+                queries.append((kind, xa, xb, ya, yb, project_pts(W, epsg, qepsg)))
+        for label, (gbt, rects, how) in passes:
+            F = {i: Polygon([aff_apply(Ad, x, y) for x, y in rect_pts(*rc)]) for i, rc in rects.items()}
+            if qepsg != epsg:
+                F2 = {i: Polygon(project_pts([aff_apply(Ad, x, y) for x, y in densify(rect_pts(*rc), NSIDE)], epsg, qepsg))
+                      for i, rc in rects.items()}
+                tol2 = TOL_PX * math.sqrt(F2[(0, 0)].area / _rect_area(rects[(0, 0)]))
+            for kind, xa, xb, ya, yb, Qpts in queries:
+                what = (f"{base}+{k} tiling {how} ({label}; other tiling of the same raster used "
+                        f"{'before' if label != 'first-tiling' else 'after'}) query {kind} px x[{xa},{xb}] y[{ya},{yb}] "
+                        f"in EPSG:{qepsg}")
+                got = as_idx_set(gbt.tiles(geom.polygon(Qpts + [Qpts[0]], f"EPSG:{qepsg}")), r,
+                                 f"history:tiles:geometry:{label}", what)
+                if qepsg == epsg:
+                    rd = [(F, Polygon(Qpts), tol1)]
+                else:
+                    rd = [(F, Polygon(project_pts(Qpts, qepsg, epsg)), tol1), (F2, Polygon(Qpts), tol2)]
+                nreq, _ = _judge_sets(r, rd, list(F), got,
+                                      f"history:tiles:geometry:{op}:missing:{label}",
+                                      f"history:tiles:geometry:{op}:extra:{label}", what, exact=True)
+                nreq_all += nreq
+    else:
+        # general path against a raster rotated by 30 degrees, in both directions
+        Ar = aff_mul(Ad, aff_mul(aff_T(7.0, 5.0), aff_R(30)))
+        rlay = "8x10/var"
+        rot = mk_gbt(epsg, Ar, rlay)
+        RP = tile_polys(Ar, rlay)
+        pix = aff_pixarea(Ad)
+        for label, (gbt, rects, how) in passes:
+            F = {i: Polygon([aff_apply(Ad, x, y) for x, y in rect_pts(*rc)]) for i, rc in rects.items()}
+            what = f"{base}+{k} tiling {how} ({label}) vs raster rotated 30 deg {rlay}"
+            n1, _ = judge_pairs(r, gbt.grid_intersect(rot), F, RP, pix, 1e-9, "overlap",
+                                f"history:general-same-crs:as-dst:{label}", "rot30", what)
+            n2, _ = judge_pairs(r, rot.grid_intersect(gbt), RP, F, pix, 1e-9, "overlap",
+                                f"history:general-same-crs:as-src:{label}", "rot30", what)
+            nreq_all += n1 + n2
+    r.outcome = f"history:{op}:{bcls}:{inst}:{'judged' if nreq_all else 'nothing-required'}"
+    r.counts = {"history_required": nreq_all}
+    return r
+
+
+# =================================================================================================
 def slices(tier):
     _TIER[0] = tier
     return [
@@ -1036,6 +1209,14 @@ def slices(tier):
                  "rasters of 80-120 tiles (Albers, UTM, two lon/lat) x {densified box, apex triangle, densified apex "
                  "triangle} in the other CRS x half-width x asymmetry about the central meridian x pinned N/S side x "
                  "tile boundary x overshoot in pixels; geometry query exact"),
+        e1.Slice("pairs-layout-menu", gen_layouts, run_layouts,
+                 "30x24 px, every ordered pair of 48 layouts (8 row chunkings x 6 column chunkings, regular and "
+                 "irregular, equal and unequal tile counts) x {identical grid, whole-pixel shift, scale 2, scale 1/2}; "
+                 "all tile pairs in exact arithmetic"),
+        e1.Slice("history", gen_history, run_history,
+                 "equal rasters tiled two ways (ordered pairs of 4 layouts) used one after the other (first, second, "
+                 "first again) x {geometry queries same CRS / EPSG:4326, general-path grid_intersect both ways against "
+                 "a rotated raster} x {one GeoBox object, two equal objects} x {north-up, rotated}; a fresh raster per case"),
         e1.Slice("pairs-same-crs-drift", gen_drift, run_drift,
                  "2048x40000 / 40000x2048 px rasters (4x20 tiles) x src layout x {rotation, shear-x, shear-y} x terms "
                  "+-{1e-6..5e-3} x pivot {centre, corner}; all tile pairs, exact footprints"),
@@ -1058,6 +1239,9 @@ def main(ctx):
         "dense_queries": {"rasters": {k: [v[0], list(v[1]), v[2], v[3]] for k, v in DENSE.items()},
                           "kinds": list(DENSE_KINDS), "points_per_side": DENSE_NSIDE,
                           "overshoot_px": list(DENSE_OVERSHOOT), "asymmetry": list(DENSE_ASYM)},
+        "layout_menu": {"shape": list(MENU_SHAPE), "rows": [repr(m) for m in MENU_Y], "cols": [repr(m) for m in MENU_X],
+                        "relations": {k: list(v) for k, v in MENU_REL.items()}},
+        "history_layouts": [repr((MENU_Y[a], MENU_X[b])) for a, b in HIST_LAYOUTS],
         "drift_terms": list(DRIFT_TERMS), "drift_kinds": list(DRIFT_KINDS),
         "drift_layouts": {k: list(v[1]) for k, v in DRIFT_ORIENT.items()},
     }
